@@ -2,6 +2,8 @@
 
 package masswallet
 
+import "runtime"
+
 // Simulation hooks, compiled only with the "verif" build tag. A deterministic
 // simulator sets these variables to take over scheduling decisions at the
 // points where the notification handler and the background worker meet.
@@ -27,3 +29,9 @@ func simPreferQuit() bool {
 	}
 	return false
 }
+
+// simNewCache drops the finalizer go-cache puts on a cache with a janitor: it
+// stops the janitor from the finalizer goroutine, i.e. from outside the
+// simulator's goroutine bubble, which the Go runtime refuses for channels made
+// inside a bubble. The janitor simply stays parked.
+func simNewCache(c interface{}) { runtime.SetFinalizer(c, nil) }
